@@ -25,6 +25,7 @@ B8(a, b, c, d, e, f, g, h) == <<a, b, c, d, e, f, g, h>>
 Small(n) == B8(n, 0, 0, 0, 0, 0, 0, 0)
 Im(neg, mag, radix, digits) == [k |-> "i", kw |-> "", neg |-> neg, mag |-> mag, radix |-> radix, digits |-> digits]
 ImHex(n) == Im(FALSE, Small(n), "hex", 0)
+ImDec(n) == Im(FALSE, Small(n), "dec", 0)
 
 (* ------------------------------- records -------------------------------- *)
 Rec(prop, status, mn, opds) == [prop |-> prop, status |-> status, ast |-> [mn |-> mn, opds |-> opds]]
@@ -109,6 +110,11 @@ C02_Class(m) ==
 \cup { L2(mn, <<W(m, w, KW(w))>>) : mn \in {"inc", "dec", "neg", "not"}, w \in {8, 16, 32, 64} }
 \cup { L2(mn, <<W(m, w, KW(w)), ImHex(5)>>) : mn \in {"add", "cmp", "test", "mov"}, w \in {8, 16, 32, 64} }
 \cup { L2("and", <<W(m, w, KW(w)), Im(FALSE, <<69,35,1,0,0,0,0,0>>, "hex", 0)>>) : w \in {32, 64} }
+\* the same with the immediate written in decimal (its own path in the tokenizer, taken after the memory operand was parsed)
+\cup { L2(mn, <<W(m, w, KW(w)), ImDec(16)>>) : mn \in {"add", "cmp", "test", "mov"}, w \in {8, 64} }
+\cup { L2("mov", <<W(m, 32, "dword"), ImDec(100)>>), L2("shl", <<W(m, 64, "qword"), ImDec(5)>>), L2("imul", <<G(64, 3), W(m, 64, ""), ImDec(10)>>),
+       L2("shld", <<W(m, 64, ""), G(64, 10), ImDec(3)>>), L2("rorx", <<G(64, 9), W(m, 64, ""), ImDec(7)>>),
+       L2("vperm2i128", <<RegRec("y", 256, 1, FALSE), RegRec("y", 256, 2, FALSE), W(m, 256, ""), ImDec(5)>>) }
 \cup { L2(mn, <<W(m, w, KW(w)), ImHex(v)>>) : mn \in {"shl", "sar", "rcr"}, w \in {8, 64}, v \in {1, 5} }
 \cup { L2("shr", <<W(m, 32, "dword"), CL>>) }
 \cup { L2("imul", <<G(64, 3), W(m, 64, ""), ImHex(5)>>) }
@@ -186,9 +192,10 @@ MemD == { Mem("", 0, 64, 0, -1, 0, "is", D(FALSE, <<16,0,0,0>>, "hex")), Mem("",
 C03_All(zz) ==
      { L3(mn, <<G(w, n), v>>) : mn \in Alu \cup {"test", "mov"}, w \in {8, 16, 32, 64}, n \in {0, 1, 9}, v \in ImmVals }
 \cup { L3("mov", <<G(64, n), v>>) : n \in {0, 3, 12}, v \in ImmVals16d }
-\cup { L3(mn, <<W(m, w, KW(w)), v>>) : mn \in Alu \cup {"test", "mov"}, w \in {8, 16, 32, 64}, m \in MemD, v \in {x \in ImmVals : x.radix = "hex"} }
+\cup { L3("mov", <<G(64, n), Im(FALSE, m, "dec", dg)>>) : n \in {0, 12}, dg \in {17, 18, 19, 22}, m \in {x \in ImmMags : x[5] = 0 /\ x[6] = 0 /\ x[7] = 0 /\ x[8] = 0} }
+\cup { L3(mn, <<W(m, w, KW(w)), v>>) : mn \in Alu \cup {"test", "mov"}, w \in {8, 16, 32, 64}, m \in MemD, v \in ImmVals }
 \cup { L3("imul", <<G(w, 1), G(w, 9), v>>) : w \in {16, 32, 64}, v \in ImmVals }
-\cup { L3("imul", <<G(64, 1), W(CHOOSE m \in MemD : m.b = 1, 64, ""), v>>) : v \in ImmVals }
+\cup { L3("imul", <<G(w, n), W(m, w, IF kwb THEN KW(w) ELSE ""), v>>) : w \in {16, 32, 64}, n \in {1, 9}, m \in {x \in MemD : x.b \in {1, 9}}, kwb \in BOOLEAN, v \in ImmVals }
 \cup { L3("push", <<v>>) : v \in ImmVals }
 \cup { L3(mn, <<G(w, 1), v>>) : mn \in Shifts, w \in {8, 64}, v \in ImmVals }
 \cup { L3(mn, <<G(32, 1), G(32, 9), v>>) : mn \in {"shld", "shrd"}, v \in ImmVals }
@@ -303,7 +310,10 @@ RegTemplates == { <<"inc", " ", "@">>, <<"push", " ", "@">>, <<"add", " ", "@", 
                   <<"jmp", " ", "@">>, <<"call", " ", "[", "@", "]">>, <<"setc", " ", "@">>, <<"cmovne", " ", "rax", ",", " ", "@">> }
 BadRegs2 == BadRegs \cup {"rcz", "rbxx", "rdy", "ebxx", "r9q", "r12e", "xmn1", "xmmm1", "xmm1a", "ymn2", "ymm2z", "mmm1", "mmx1", "cll", "alx", "sill", "r8bb"}
 Fill(t, b) == [k \in 1..Len(t) |-> IF t[k] = "@" THEN b ELSE t[k]]
+\* a correct register name with further characters attached is not a register name either
+TailRegs == { r \o t : r \in {"rbx", "ecx", "r10", "r9d", "dx", "cl", "xmm3", "ymm9", "mm2"}, t \in {"+1", "+rcx", "]", "*2", "-", "+", "-0x10", "+rcx*4", "]]", "["} }
 C10_Templ(zz) == { Raw("misspelt-register", Fill(t, b)) : t \in RegTemplates, b \in BadRegs2 }
+            \cup { Raw("misspelt-register", Fill(t, b)) : t \in {x \in RegTemplates : \A k \in 1..Len(x) : x[k] # "["}, b \in TailRegs }
 BadMn == {"foo", "addd", "mo", "movv", "ad", "xorr", "jmpp", "nop12", "nop0", "vpaddz", "leaa", "pushq", "a", "zzz", "cmovxx", "setzz"}
 C10_Mn(zz) == { Raw("unknown-mnemonic", <<b, " ", "rax", ",", " ", "rcx">>) : b \in BadMn }
          \cup { Raw("unknown-mnemonic", <<b>>) : b \in BadMn } \cup { Raw("unknown-mnemonic", <<b, " ", "rax">>) : b \in BadMn }
@@ -326,6 +336,10 @@ C10_Mem(zz) ==
 \cup { Raw("unclosed-bracket", u \o <<"[", "rax", "+", "rcx", "*", "4">> \o MemTail(u)) : u \in MemUsers }
 \cup { Raw("unclosed-bracket", u \o <<"[", "rax", "+", "0x10">> \o MemTail(u)) : u \in MemUsers }
 \cup { Raw("unclosed-bracket", u \o <<"[", "0x10">> \o MemTail(u)) : u \in MemUsers }
+\cup { Raw("unclosed-bracket", u \o <<"[">> \o body \o MemTail(u)) : u \in MemUsers,
+        body \in { <<"rbx", "+", "rcx">>, <<"rbx", "+", "2", "*", "rcx">>, <<"4", "*", "rcx">>, <<"rbx", "+", "rcx", "*", "2", "+", "8">>, <<"rcx", "*", "8">>,
+                   <<"rbx", "+", "rcx", "+", "0x10">>, <<"ebx", "+", "ecx">>, <<"r12", "+", "r13", "*", "4">>, <<"rbx", "-", "0x10">>, <<"rsp">>, <<"rbx", "+", "rsp">> } }
+\cup { Raw("unclosed-bracket", u \o body \o <<"]">> \o MemTail(u)) : u \in MemUsers, body \in { <<"rbx", "+", "rcx">>, <<"rax">>, <<"rbx", "+", "rcx", "*", "2">> } }
 C10_Empty(zz) ==
      { Raw("empty-operand", <<mn, " ", ",", "rax">>) : mn \in {"add", "mov", "push", "imul", "vpaddb", "shld"} }
 \cup { Raw("empty-operand", <<mn, " ", "rax", ",", ",", "rbx">>) : mn \in {"add", "mov", "imul", "shld", "bzhi"} }
@@ -375,7 +389,9 @@ Styles3(zz) == {st \in StyleDims : Cardinality(Changed(st)) = 3}
 \* program decorations: lines that emit nothing
 DecorLines == { <<"">>, <<" ">>, <<"; only a comment">>, <<"label:">>, <<"  loop_1:">>, <<"section .text">>, <<"SECTION .data">>,
                 <<"global main">>, <<"GLOBAL _start">>, <<"% macro-like">>, <<"<09>", "; c">>, <<"   ", "; indented comment">>,
-                [k \in 1..130 |-> " "], <<";">> \o [k \in 1..150 |-> "c"], [k \in 1..110 |-> " "] \o <<"; c">> }
+                [k \in 1..130 |-> " "], <<";">> \o [k \in 1..150 |-> "c"], [k \in 1..110 |-> " "] \o <<"; c">>,
+                \* labels followed by blanks / a comment, with a blank before the colon, in upper case
+                <<"label: ">>, <<"label:", "<09>">>, <<"lbl: ", "; c">>, <<"lbl :">>, <<"  l2:  ">>, <<"L3:;c">>, <<"END:   ">> }
 
 (* ============================= selection ================================ *)
 Selected == CASE IOEnv.CORPUS = "C01" -> CorpusC01(0)
